@@ -461,12 +461,14 @@ func (h *History) step(t *rapid.T) {
 		h.emit(t, Op{T: ti, Op: "delete", K: clone(h.storedKey(t, ti, "dp"))})
 	case 3:
 		k, note := h.nearKey(t, ti)
-		h.emit(t, Op{T: ti, Op: "delete", K: k, Note: note + h.rawProbe(t, ti, k)})
+		k, note = h.rawProbe(t, ti, k, note)
+		h.emit(t, Op{T: ti, Op: "delete", K: k, Note: note})
 	case 4:
 		h.emit(t, Op{T: ti, Op: "search", K: clone(h.storedKey(t, ti, "sp"))})
 	case 5:
 		k, note := h.nearKey(t, ti)
-		h.emit(t, Op{T: ti, Op: "search", K: k, Note: note + h.rawProbe(t, ti, k)})
+		k, note = h.rawProbe(t, ti, k, note)
+		h.emit(t, Op{T: ti, Op: "search", K: k, Note: note})
 	case 6:
 		a, na := h.bound(t, ti, nil)
 		b, nb := h.bound(t, ti, a)
@@ -544,12 +546,20 @@ func (h *History) step(t *rapid.T) {
 }
 
 // rawProbe: on a raw []byte compound tree some absent probes are passed unterminated (they are no
-// keys of the codec, so they are absent whatever they are: partial paths, re-slices of stored keys).
-func (h *History) rawProbe(t *rapid.T, ti int, k []byte) string {
-	if _, raw := h.eng.slots[ti].kind.(*rawCmpKind); raw && len(k) > 0 && bytes.IndexByte(k, 0) < 0 && drawInt(t, 0, 1, "unterm") == 0 {
-		return ",unterminated"
+// keys of the codec, so they are absent whatever they are): a stored or nearby key without its
+// terminator, or cut somewhere before it - partial paths, what a re-slice of a stored key is.
+func (h *History) rawProbe(t *rapid.T, ti int, k []byte, note string) ([]byte, string) {
+	if _, raw := h.eng.slots[ti].kind.(*rawCmpKind); !raw || len(k) < 2 || drawInt(t, 0, 1, "unterm") != 0 {
+		return k, note
 	}
-	return ""
+	cut := len(k) - 1
+	if drawInt(t, 0, 2, "untermcut") == 0 {
+		cut = drawInt(t, 1, len(k)-1, "untermat")
+	}
+	if bytes.IndexByte(k[:cut], 0) >= 0 {
+		return k, note
+	}
+	return clone(k[:cut]), note + ",unterminated"
 }
 
 func (h *History) iterOp(t *rapid.T, ti int) {
